@@ -53,6 +53,7 @@ impl<T> ResourceStorage<T> {
 
 	pub fn remove_and_add(&mut self, remove_test: impl FnMut(&T) -> bool) {
 		for (_, resource) in self.resources.drain_filter(remove_test) {
+			verif_hook!("res.raa.removing", 0, 0);
 			self.unused_resource_producer
 				.push(resource)
 				.unwrap_or_else(|_| panic!("unused resource producer is full"));
